@@ -367,7 +367,7 @@ def kill_cases(r, n):
 # ---------------------------------------------------------------------------------------------
 
 FAULT_CALLS = ["mkdir", "openat", "write", "fallocate", "ftruncate", "renameat,renameat2,rename", "unlink,unlinkat", "read", "linkat",
-               "copy_file_range", "newfstatat,statx"]
+               "copy_file_range", "newfstatat,statx", "getdents64"]
 ERRNOS = ["EIO", "ENOSPC", "EACCES", "EMFILE"]
 
 
@@ -495,6 +495,12 @@ def leg_fault_injection(cases, flavour, tier, jobs=8):
                 if case["kind"] == "read" and res[0] == "ok" and case.get("data") is not None:
                     if unhx(res[1]) != case["data"]:
                         fs_.append(Failure("wrong_bytes_under_fault", n, f"{where}: read returned wrong bytes", sig=sig))
+                if case["kind"] == "clear" and res[0] == "ok":
+                    # a clear that answers ok has cleared: nothing is left below the cache directory
+                    files, links, _ = parse_dump(il[0])
+                    left = sorted(p_ for p_ in list(files) + list(links) if p_.startswith("c0/"))
+                    if left:
+                        fs_.append(Failure("untruthful_clear", n, f"{where}: clear answered ok but {len(left)} files are still there, e.g. {left[0]}", sig=sig))
                 if case["kind"] in ("lookup",) and res[0] == "ok":
                     # a faulty lookup may fail, but must not claim 'not found' / stale for a live key
                     m = meta_of_line(r.impl_lines[vi])
@@ -731,6 +737,8 @@ def fault_cases(r):
         {"setup": base + [w_oneshot("s", "sha256", key, d)], "victim": f"copy s c0 {hx(key)} out/dest", "key": key, "data": d, "algo": "sha256", "kind": "copy", "others": others},
         {"setup": base + [w_oneshot("s", "sha256", key, d)], "victim": f"remove s c0 {hx(key)}", "key": None, "data": None, "algo": "sha256", "kind": "remove", "others": others},
         {"setup": base + [w_oneshot("s", "sha256", key, d)], "victim": "list c0", "key": key, "data": d, "algo": "sha256", "kind": "list", "others": others},
+        {"setup": base + [w_oneshot("s", "sha256", key, d)], "victim": "clear s c0", "key": None, "data": None, "algo": "sha256", "kind": "clear", "others": {}},
+        {"setup": base + [w_oneshot("s", "sha256", key, d)], "victim": "clear a c0", "key": None, "data": None, "algo": "sha256", "kind": "clear", "others": {}},
     ]
     return cases
 
